@@ -38,7 +38,6 @@ func c19Observers(N int) {
 			return len(b)
 		}
 	}
-	soloA, soloB := run(f), run(h)
 	rt.ActorBegin(1)
 	a := run(f)
 	rt.ActorEnd()
@@ -58,6 +57,7 @@ func c19Observers(N int) {
 	}
 	rt.ActorEnd()
 	rt.FootprintCheck()
+	soloA, soloB := run(f), run(h) // after the actors: a lazily filled cache must still be cold when they run
 	rt.Check(a == soloA && b == soloB, "result differs from the result obtained running alone")
 	vgAgree(g, adj, "an observer modified the shared graph")
 	rt.Reach("end")
